@@ -812,7 +812,7 @@ class C06(Prop):
         # (5) file-relative !path values denote a location relative to the file in which they were written
         for a in arrs:
             r = io[a]['cfg']
-            if 'ok' not in r or a == 'nested_each':
+            if 'ok' not in r or a in ('nested_each', 'nested_after'):     # nested_after writes a copy of the first document into the main file: its probes have two homes
                 continue
             p = plans[a]
             top = r['ok'] if p['key'] is None else val_get(r['ok'], p['key'])
